@@ -37,7 +37,7 @@ MANIFEST = {
             'existing entry verbatim in order followed by the new one.',
     'level_note': 'Bounded (B, never counted as proved): TorConfig.create_socks_endpoint, the DEFAULT / __SocksPort branch, more than two configured entries '
                   '- twin over SOCKSPort configurations x requests x entry points. '
-                  'Known finding: an existing "auto" SOCKSPort is not re-listed by TorConfig.create_socks_endpoint.',
+                  'Known findings: an existing "auto" SOCKSPort is not re-listed by TorConfig.create_socks_endpoint; a *requested* "auto" is added by SETCONF but no endpoint can be built for it (ValueError).',
 }
 
 
@@ -467,9 +467,9 @@ def make_models_for(unit_name):
     return CreateModels18() if '_create_socks_endpoint' in unit_name else Models18()
 
 
-def units():
+def units(tier='quick'):
     extra = []
-    for n in (0, 1, 2):
+    for n in ((0, 1, 2) if tier == 'quick' else (0, 1, 2, 3)):
         for req in (False, True):
             extra.append(('C18/_create_socks_endpoint@%d/%s' % (n, 'requested' if req else 'any'), unit_create(n, req)))
     return extra + [('C18/_endpoint_from_socksport_line/one_word', unit_line('one_word')),
@@ -481,7 +481,9 @@ def units():
 
 # ==========================================================================================
 from pyvc.report import adopt_twin
-FINDING_PATTERNS = [(r'setconf_relists_existing_verbatim:TorConfig.create_socks_endpoint:entry_missing', F_AUTO)]
+F_REQ_AUTO = 'requested-auto-socksport-unusable'
+FINDING_PATTERNS = [(r'setconf_relists_existing_verbatim:TorConfig.create_socks_endpoint:entry_missing', F_AUTO),
+                    (r"failed_after_setconf_ValueError \| .*\(req='auto'\)", F_REQ_AUTO)]
 twin, _replay_twin = adopt_twin('twin.tC18', FINDING_PATTERNS)
 
 
